@@ -18,7 +18,7 @@ def main():
     seeds = [a for a in sys.argv[1:] if a.isdigit()] or ['1', '2', '3']
     only = [a for a in sys.argv[1:] if not a.isdigit()]
     rows = {}
-    for d in sorted(glob.glob(os.path.join(VERIF, 'seeded', '*'))):
+    for d in sorted(x for x in glob.glob(os.path.join(VERIF, 'seeded', '*')) if os.path.isdir(x)):
         sid = os.path.basename(d)
         if only and not any(o in sid for o in only):
             continue
